@@ -37,6 +37,9 @@ pub fn prefix_compatible(a: &InfoSeq, b: &InfoSeq) -> bool {
 pub struct Probe {
     pub hist: History,
     pub timed: bool,
+    /// games that share positions with the probe's search tree: replaying them earlier in the
+    /// session makes any state that survives a `position` command visible in the probe's scores
+    pub related: Vec<History>,
 }
 
 pub struct Reference {
@@ -75,7 +78,7 @@ const GARBAGE: &[&str] = &["", "debug on", "stop", "ponderhit", "register later"
 
 fn prefix_traffic(s: &mut Sess, rng: &mut Rng, roots: &[History], probe: &Probe, n: usize, acc: &mut Acc) -> bool {
     for _ in 0..n {
-        match rng.below(12) {
+        match rng.below(13) {
             0 => {
                 s.eng.send("ucinewgame");
             }
@@ -91,22 +94,30 @@ fn prefix_traffic(s: &mut Sess, rng: &mut Rng, roots: &[History], probe: &Probe,
             3 => {
                 s.eng.send(*rng.pick(GARBAGE));
             }
-            4 | 5 => {
-                // the probed game itself (or a shorter / longer version of it): a leaked
-                // repetition record would double its counts
-                let mut h = History { start: probe.hist.start.clone(), moves: probe.hist.moves.clone(), end: probe.hist.end.clone() };
-                if rng.chance(1, 2) && h.moves.len() > 2 {
-                    let cut = rng.below(h.moves.len() as u64) as usize;
-                    h.moves.truncate(cut);
-                    let mut p = h.start.clone();
-                    for m in &h.moves {
-                        p = apply(&p, *m);
+            4 | 5 | 6 => {
+                // a game related to the probe (the probed game itself, a truncation of it, or a
+                // shuffle from the probe's root that repeats positions of its search tree)
+                let h = if probe.related.is_empty() || rng.chance(1, 4) {
+                    let mut h = probe.hist.clone();
+                    if rng.chance(1, 2) && h.moves.len() > 2 {
+                        let cut = rng.below(h.moves.len() as u64) as usize;
+                        h.moves.truncate(cut);
+                        let mut p = h.start.clone();
+                        for m in &h.moves {
+                            p = apply(&p, *m);
+                        }
+                        h.end = p;
                     }
-                    h.end = p;
-                }
+                    h
+                } else {
+                    probe.related[rng.below(probe.related.len() as u64) as usize].clone()
+                };
                 s.position(&h);
                 acc.feature("prefix_related_game");
-                if has_legal_move(&h.end) && rng.chance(2, 3) {
+                if rng.chance(1, 3) {
+                    s.eng.send("ucinewgame");
+                }
+                if has_legal_move(&h.end) && rng.chance(1, 2) {
                     let args = if rng.chance(1, 2) { String::new() } else { timed_args(h.end.stm, 5 + rng.below(25) as u32) };
                     let mut g = s.go(&args, WATCHDOG);
                     if g.bestmove.is_none() {
@@ -151,7 +162,7 @@ pub fn probes(seed: u64, n: usize) -> Vec<Probe> {
     let mut guard = 0;
     while v.len() < n && guard < n * 20 {
         guard += 1;
-        let hist = match v.len() % 4 {
+        let hist = match v.len() % 5 {
             0 => {
                 // repetition-sensitive probe: lost side to move, one or two shuffle cycles behind it
                 let base = Pos::parse_fen(lost[rng.below(lost.len() as u64) as usize]).unwrap();
@@ -172,6 +183,11 @@ pub fn probes(seed: u64, n: usize) -> Vec<Probe> {
             }
             1 => rich_history(&starts[rng.below(starts.len() as u64) as usize], &mut rng, 60),
             2 => make_history(&Pos::start(), &mut rng, 30, 0, 0),
+            3 => {
+                // no move list at all: lost side to move, or the start position
+                let b = if rng.chance(2, 3) { Pos::parse_fen(lost[rng.below(lost.len() as u64) as usize]).unwrap() } else { Pos::start() };
+                History { start: b.clone(), moves: vec![], end: b }
+            }
             _ => {
                 let b = starts[rng.below(starts.len() as u64) as usize].clone();
                 History { start: b.clone(), moves: vec![], end: b }
@@ -180,8 +196,25 @@ pub fn probes(seed: u64, n: usize) -> Vec<Probe> {
         if !has_legal_move(&hist.end) {
             continue;
         }
-        let timed = v.len() % 2 == 0;
-        v.push(Probe { hist, timed });
+        let timed = v.len() % 5 != 2;
+        // related games: shuffles (2 cycles) from the probe's root and from its start position
+        let mut related = Vec::new();
+        for base in [hist.end.clone(), hist.start.clone()] {
+            for _ in 0..2 {
+                if let Some(cyc) = find_cycle(&base, &mut rng) {
+                    let mut moves = Vec::new();
+                    let mut p = base.clone();
+                    for _ in 0..2 {
+                        for m in cyc {
+                            moves.push(m);
+                            p = apply(&p, m);
+                        }
+                    }
+                    related.push(History { start: base.clone(), moves, end: p });
+                }
+            }
+        }
+        v.push(Probe { hist, timed, related });
     }
     v
 }
